@@ -270,7 +270,9 @@ def gen_spec(g, ctx):
     align = []
     if ctx in ("file", "block"):
         storage = list(c.choice([[], [], [], [], ["static"], ["extern"], ["typedef"], ["_Thread_local"], ["static", "_Thread_local"], ["extern", "_Thread_local"]] + ([["register"], ["auto"]] if ctx == "block" else [])))
-        if c.chance(0.12):
+        # (a function specifier in a typedef is a constraint violation, and the
+        # Typedef node has no place for it: not generated)
+        if "typedef" not in storage and c.chance(0.12):
             funcspec = list(c.choice([["inline"], ["_Noreturn"], ["inline", "_Noreturn"], ["_Noreturn", "inline"]]))
     elif ctx == "forinit":
         storage = list(c.choice([[], [], ["register"], ["auto"], ["static"]]))
